@@ -50,3 +50,7 @@ where
         self.clone().serve(ctx, req).await.map_err(RpcError::Server)
     }
 }
+
+#[cfg(kani)]
+#[path = "/verif/kani/stub_serve.rs"]
+mod verif_kani;
